@@ -22,7 +22,7 @@ FUEL = 400
 
 HDR = """From Coq Require Import List Arith Bool.
 Import ListNotations.
-From TF Require Import Base.Hier Base.Ty Infer.Store Infer.Engine Infer.Run.
+From TF Require Import Base.Hier Base.Ty Infer.Store Infer.Engine Infer.Run Infer.Witness Infer.Check.
 """
 
 ERRCODE = {"SubtypeMismatch": 0, "TypeMismatch": 1, "FunctionApplicationError": 2,
@@ -73,6 +73,28 @@ def conc_to_sty(t):
 
 def conc_schema(t):
     return (0, conc_to_sty(t) if not (isinstance(t, tuple) and t and t[0] in ("v", "w", "o")) else t, [])
+
+
+def pool_of(h: C.Hierarchy) -> list:
+    """Candidate instantiations for unresolved variables: every base type,
+    Top, Bottom, Unit and two compound samples."""
+    bases = list(range(5, 5 + h.nbase))
+    pool = [(b_, []) for b_ in bases] + [(0, []), (1, []), (2, [])]
+    un = [o for o in h.ids if h.arity(o) == 1]
+    if un:
+        pool.append((un[0], [(bases[0], [])]))
+    pool.append((3, [(bases[0], []), (bases[-1], [])]))
+    return pool
+
+
+def case_block_check(name: str, h: C.Hierarchy, progs, cap: int = 60) -> tuple[str, int]:
+    """Like case_block, with the verified witness checker's row appended."""
+    txt = f"Definition {name} := {h.coq()}.\n"
+    pool = C.coq_list(pool_of(h), C.ty_coq)
+    items = C.coq_list(progs, lambda ps: f"({C.coq_list(ps[1])}, {C.coq_list(ps[0], cmd_coq)})")
+    txt += (f"Eval vm_compute in map (fun p : list nat * list cmd => run_check {name} {FUEL} {cap} {pool} (fst p) (snd p)) "
+            f"{items}.\n")
+    return txt, 1
 
 
 def case_block(name: str, h: C.Hierarchy, progs: list[tuple[list, list[int]]]) -> tuple[str, int]:
@@ -381,10 +403,12 @@ def observe_model(rows):
     return {"err": err_key_model(err), **canon(vals)}
 
 
-def model_eval(tag: str, items: list[tuple[C.Hierarchy, list[tuple[list, list[int]]]]], nfiles=4):
+def model_eval(tag: str, items: list[tuple[C.Hierarchy, list[tuple[list, list[int]]]]], nfiles=4,
+        check=False):
     """items: per hierarchy, a list of (program, schedule).  Returns, per
-    hierarchy, the list of raw dumps."""
-    blocks = [case_block(f"H{k}", h, progs) for k, (h, progs) in enumerate(items)]
+    hierarchy, the list of raw dumps (with the checker row when check=True)."""
+    mk = case_block_check if check else case_block
+    blocks = [mk(f"H{k}", h, progs) for k, (h, progs) in enumerate(items)]
     outs = C.coq_eval_blocks(tag, HDR, blocks, nfiles=nfiles)
     return [o[0] for o in outs]
 
@@ -551,3 +575,148 @@ def all_schedules(points: list[int], limit: int) -> list[list[int]]:
         if len(out) >= limit:
             break
     return out
+
+
+# ----------------------------------------------- independent Python oracle
+
+def py_sub(h: C.Hierarchy, a, b) -> bool:
+    """Declarative subtype order on concrete (op, args) types, written from
+    the property text (not from the code)."""
+    if a[0] == 1 or b[0] == 0:
+        return True
+    if not a[1] and not b[1] and h.arity(a[0]) == 0 and h.arity(b[0]) == 0:
+        return b[0] in chain_of(h, a[0])
+    if a[0] != b[0] or len(a[1]) != len(b[1]):
+        return False
+    return all(py_sub(h, x, y) if v else py_sub(h, y, x)
+        for v, x, y in zip(h.variance(a[0]), a[1], b[1]))
+
+
+def m_ground(t, th):
+    t = follow(t)
+    if isinstance(t, MVar):
+        return th[id(t)]
+    return (t.op, [m_ground(p, th) for p in t.params])
+
+
+def m_vars(t, acc):
+    t = follow(t)
+    if isinstance(t, MVar):
+        if all(t is not u for u in acc):
+            acc.append(t)
+    else:
+        for p in t.params:
+            m_vars(p, acc)
+    return acc
+
+
+def m_resolved(t) -> bool:
+    t = follow(t)
+    if isinstance(t, MVar):
+        return False
+    return all(m_resolved(p) for p in t.params)
+
+
+def steps_of(prog):
+    n = 0
+    out = []
+    for c in prog:
+        if c[0] == "apply":
+            out.append((c[1], c[2], n))
+            n += 1
+        elif c[0] in ("inst", "fix"):
+            n += 1
+    return out
+
+
+def py_witness(h: C.Hierarchy, prog, mvals, cap=60):
+    """The C03 conditions evaluated directly on a snapshot (mirror graph) of
+    the implementation's final state.  Returns a list of problems."""
+    problems = []
+    vs = []
+    for v in mvals:
+        m_vars(v, vs)
+    pool = pool_of(h)
+
+    def cands(v):
+        out = []
+        for t in pool:
+            if not t[1] and h.arity(t[0]) == 0:
+                if v.lower is not None and not (v.lower == 1 or t[0] == 0 or t[0] in chain_of(h, v.lower)):
+                    continue
+                if v.upper is not None and not (t[0] == 1 or v.upper == 0 or v.upper in chain_of(h, t[0])):
+                    continue
+                out.append(t)
+            elif v.lower is None and v.upper is None:
+                out.append(t)
+        return out
+    spaces = [cands(v) for v in vs]
+    n = 0
+    steps = [(mvals[f], mvals[x], mvals[r]) for f, x, r in steps_of(prog) if r < len(mvals)]
+    for combo in itertools.product(*spaces):
+        n += 1
+        if n > cap:
+            break
+        th = {id(v): t for v, t in zip(vs, combo)}
+        for fv, xv, rv in steps:
+            F, X, R = m_ground(fv, th), m_ground(xv, th), m_ground(rv, th)
+            if F[0] == 0 and not F[1]:
+                if R != (0, []):
+                    problems.append(("top", F, X, R))
+                continue
+            if F[0] != 3:
+                problems.append(("not-a-function", F, X, R))
+            elif not py_sub(h, X, F[1][0]):
+                problems.append(("argument-not-subtype", F, X, R))
+            elif R != F[1][1]:
+                problems.append(("result-not-instantiated-output", F, X, R))
+    # constraints whose variables are all resolved
+    seen = []
+    def all_cons():
+        todo = list(vs)
+        allv = []
+        for v in mvals:
+            collect_all_vars(v, allv)
+        for v in allv:
+            for c in v.cons:
+                if all(c is not d for d in seen):
+                    seen.append(c)
+    all_cons()
+    for c in seen:
+        if m_resolved(c.ref) and all(m_resolved(a) for a in c.alts):
+            r = m_ground(c.ref, {})
+            alts = [m_ground(a, {}) for a in c.alts]
+            if c.elim:
+                if not any(py_sub(h, r, a) for a in alts):
+                    problems.append(("elimination-constraint-violated", r, alts))
+            else:
+                if not py_sub(h, r, alts[0]) or (c.strict and r == alts[0]):
+                    problems.append(("subtype-constraint-violated", r, alts))
+    # (iv)
+    allv = []
+    for v in mvals:
+        collect_all_vars(v, allv)
+    for v in allv:
+        if (v.lower is not None or v.upper is not None) and v.bound is not None:
+            t = follow(v)
+            if isinstance(t, MOp) and t.params:
+                problems.append(("bounded-variable-resolved-to-compound", v.lower, v.upper, t.op))
+    return problems
+
+
+def collect_all_vars(t, acc):
+    """every variable object reachable (bound ones too)"""
+    if isinstance(t, MVar):
+        if any(t is u for u in acc):
+            return acc
+        acc.append(t)
+        if t.bound is not None:
+            collect_all_vars(t.bound, acc)
+        for c in t.cons:
+            collect_all_vars(c.ref, acc)
+            for a in c.alts:
+                collect_all_vars(a, acc)
+    else:
+        for p in t.params:
+            collect_all_vars(p, acc)
+    return acc
